@@ -401,6 +401,9 @@ func invalidReasons(fn *fnSpec, p *Params) []string {
 		}
 	}
 	out = append(out, cp...)
+	if sh != nil && p.TrueT != nil {
+		sh.t = *p.TrueT
+	}
 	switch fn.Kind {
 	case "keygen":
 		q, distinct := idSetProblems("participant", p.Parts, p.Self)
